@@ -187,6 +187,8 @@ def lsCmd (arg : String) : String :=
      | "permutations" => showIntss (Ls.permutations l)
      | "cartesian" => let r := parseInts b; showIntss ((Ls.cartesian l r (l.length - 1) (r.length - 1)).map (fun p => [p.1, p.2]))
      | "cartesianlazy" => let r := parseInts b; showIntss ((Ls.cartesian l r 0 0).map (fun p => [p.1, p.2]))
+     | "zip" => showIntss ((Ls.zipLongest l (parseInts b)).map (fun p => [p.1, p.2]))
+     | "transpose" => showIntss (Ls.transposeR ((a.splitOn ";").map parseInts))
      | "gradeup" => showInts ((Ls.gradeUp l).map (fun (i : Nat) => (i : Int)))
      | "gradedown" => showInts ((Ls.gradeDown l).map (fun (i : Nat) => (i : Int)))
      | "sublists" => showIntss (Ls.contiguous l)
